@@ -98,7 +98,7 @@ def run(tier):
     n = 250 if tier == 'quick' else 2000
     try:
         for i in range(n):
-            mode = R.choice(['plain', 'plain', 'fastpath', 'hdf5', 'fail-rows', 'fail-missing', 'window'])
+            mode = R.choice(['plain', 'plain', 'fastpath', 'hdf5', 'fail-rows', 'fail-missing', 'window', 'nonfinite-cast', 'nonfinite-cast'])
             spec = filegen.gen_spec(R, n_lf=1, small=True, fastpath=(mode == 'fastpath'),
                                     rows=R.choice([2, 3, 5]), vrl=R.choice([8192, 64]))
             if mode == 'hdf5':
@@ -111,6 +111,24 @@ def run(tier):
             spec['write']['source_opts']['h5name'] = 'src19.h5'
             if mode == 'window':
                 spec['write']['from_idx'] = 1
+            if mode == 'nonfinite-cast':
+                # float channels holding NaN / infinities / huge values, declared with an integer cast: the cast must
+                # work on a copy whatever it makes of such values
+                spec['write']['data_kind'] = R.choice(['inline', 'dict', 'struct'])
+                first = True
+                for lf in spec['lfs']:
+                    for o in lf['objects']:
+                        if o['kind'] == 'channel' and not o.get('index_like'):
+                            if first:
+                                first = False
+                                continue
+                            fdt = R.choice(['float32', 'float64'])
+                            shape = o['data'].shape
+                            vals = np.array([R.choice([float('nan'), float('inf'), float('-inf'), 1e30, -1e30, 3.5, 0.0, 7.0])
+                                             for _ in range(int(np.prod(shape)))], dtype=fdt).reshape(shape)
+                            o['dtype'], o['data'] = fdt, vals
+                            o['cast_dtype'] = R.choice(['int32', 'uint8', 'int16', 'uint32'])
+                            o['layout'] = R.choice(['plain', 'view', 'strided'])
             st, b = call(filegen.build, spec)
             if st != 'ok':
                 chk.count(f'build-failed:{b}')
